@@ -327,7 +327,7 @@ func checkRequest(c Case, m *msggen.Message, r *har.Request) (v kit.Verdict) {
 		}
 		return v
 	}
-	if len(c.Hist) > 0 && pd.Text == "" && len(pd.Params) == 0 && (m.FormKind == "" || len(m.Params) > 0) {
+	if len(c.Hist) > 0 && len(m.Entity) > 0 && pd.Text == "" && len(pd.Params) == 0 && (m.FormKind == "" || len(m.Params) > 0) {
 		v.Addf("C16/capture/option-history/post-data-not-captured-despite-last-option", "after the SetOption history %+v post data logging is on for %q, yet postData has neither text nor params (%d body bytes)", c.Hist, m.ContentType, len(m.Entity))
 		return v
 	}
